@@ -22,6 +22,7 @@ import (
 	"fmt"
 	"reflect"
 	"sort"
+	"strconv"
 	"strings"
 	"unsafe"
 
@@ -417,12 +418,16 @@ func encStream(r *vh.Rng, n int, cv *vh.Cases, sum *vh.Summary, id *int) {
 				var m mbs
 				for _, k := range idx {
 					var kk interface{}
-					var n int64
-					fmt.Sscan(keys[k], &n)
-					if kt == 1 {
+					switch kt {
+					case 1:
+						n, _ := strconv.ParseInt(keys[k], 10, 64)
 						kk = n
-					} else {
-						kk = uint64(n)
+					case 2:
+						n, _ := strconv.ParseUint(keys[k], 10, 64)
+						kk = n
+					default:
+						n, _ := strconv.ParseFloat(keys[k], 64)
+						kk = n
 					}
 					m = append(m, kk, vals[k])
 				}
@@ -698,9 +703,11 @@ func decStream(r *vh.Rng, n int, cv *vh.Cases, sum *vh.Summary, id *int) {
 				val = int64(7)
 			}
 			var kk interface{} = e.key
-			if info.KeyType == 1 || info.KeyType == 2 {
-				var nn int64
-				fmt.Sscan(e.key, &nn)
+			if info.KeyType == 1 {
+				nn, _ := strconv.ParseInt(e.key, 10, 64)
+				kk = nn
+			} else if info.KeyType == 2 {
+				nn, _ := strconv.ParseUint(e.key, 10, 64)
 				kk = nn
 			}
 			stream = append(stream, kk, val)
@@ -766,12 +773,10 @@ func decStream(r *vh.Rng, n int, cv *vh.Cases, sum *vh.Summary, id *int) {
 				case 0:
 					kt = "(IStr " + coqStr(e.key) + ")"
 				case 1:
-					var nn int64
-					fmt.Sscan(e.key, &nn)
+					nn, _ := strconv.ParseInt(e.key, 10, 64)
 					kt = "(IInt " + coqZ(nn) + ")"
 				case 2:
-					var nn uint64
-					fmt.Sscan(e.key, &nn)
+					nn, _ := strconv.ParseUint(e.key, 10, 64)
 					kt = fmt.Sprintf("(IUint %d%%N)", nn)
 				}
 				items = append(items, "("+kt+", "+valItem+")")
@@ -835,6 +840,35 @@ func decStream(r *vh.Rng, n int, cv *vh.Cases, sum *vh.Summary, id *int) {
 	}
 }
 
+// keysStream: structs whose keys are integers or floats (tags on both sides of the int64
+// boundary, negative, fractional) decode from their own encoding, in every format.
+func keysStream(r *vh.Rng, sum *vh.Summary) {
+	for _, rt := range keyedTypes {
+		for _, format := range encFormats {
+			for rep := 0; rep < 3; rep++ {
+				v := reflect.New(rt).Elem()
+				fillVal(r, v, valOpts{}, 0)
+				h := handleFor(format, vh.Opts{"Canonical": rep == 1})
+				bs, err := encode(h, v.Addr().Interface())
+				cj := map[string]interface{}{"format": format, "type": rt.String(), "value": fmt.Sprintf("%+v", v.Interface()), "build": buildName}
+				if err != nil {
+					sum.FailC("keys", "keys:encode-error", "a struct with numeric keys does not encode", cj)
+					continue
+				}
+				cj["stream"] = vh.Hex(bs)
+				back := reflect.New(rt)
+				if err := codec.NewDecoderBytes(bs, h).Decode(back.Interface()); err != nil {
+					sum.FailC("keys", "keys:decode-error:"+rt.Name(), "a struct with numeric keys does not decode from its own encoding", cj)
+				} else if !vh.DeepEq(back.Elem(), v, vh.EqOpts{NilEqEmpty: true, NegZeroEq: true}) {
+					cj["got"] = fmt.Sprintf("%+v", back.Elem().Interface())
+					sum.FailC("keys", "keys:roundtrip:"+rt.Name(), "a struct with numeric keys decodes from its own encoding to a different value", cj)
+				}
+				sum.Count("keys."+format, "keys/"+rt.Name()+"/"+format)
+			}
+		}
+	}
+}
+
 func main() {
 	nFields := flag.Int("fields", 300, "random declarations for the field-resolution stream")
 	nEmpty := flag.Int("empty", 300, "values for the emptiness stream")
@@ -853,6 +887,7 @@ func main() {
 	emptyStream(r.Fork(), *nEmpty, cv, sum, &id)
 	encStream(r.Fork(), *nEnc, cv, sum, &id)
 	decStream(r.Fork(), *nDec, cv, sum, &id)
+	keysStream(r.Fork(), sum)
 	cv.Close()
 	sum.Print()
 }
